@@ -59,14 +59,44 @@ pub(super) fn read_frequencies(src: &mut &[u8]) -> io::Result<Frequencies> {
             for _ in 0..len {
                 let f = read_itf8_as(src)?;
                 frequencies[usize::from(sym)] = f;
-                sym += 1;
+                sym = next_symbol(sym)?;
             }
         }
 
         prev_sym = sym;
     }
 
+    validate_frequencies(&frequencies)?;
+
     Ok(frequencies)
+}
+
+// A run of symbols cannot extend past the last symbol of the alphabet.
+pub(super) fn next_symbol(sym: u8) -> io::Result<u8> {
+    sym.checked_add(1).ok_or_else(|| {
+        io::Error::new(
+            io::ErrorKind::InvalidData,
+            "invalid symbol run in frequency table",
+        )
+    })
+}
+
+// The decoder maps the low 12 bits of a state to a symbol, i.e., the frequencies of a table are
+// normalized to sum to at most 4096. A larger total cannot be produced by an encoder and would
+// overflow both the cumulative frequencies and the state update.
+fn validate_frequencies(frequencies: &Frequencies) -> io::Result<()> {
+    const MAX_TOTAL_FREQUENCY: u32 = 4096;
+
+    let sum: u32 = frequencies.iter().copied().map(u32::from).sum();
+
+    if sum <= MAX_TOTAL_FREQUENCY {
+        Ok(())
+    } else {
+        Err(io::Error::new(
+            io::ErrorKind::InvalidData,
+            format!("invalid frequency table: expected total <= {MAX_TOTAL_FREQUENCY}, got {sum}"),
+        ))
+    }
 }
 
 pub(super) fn build_cumulative_frequencies(frequencies: &Frequencies) -> CumulativeFrequencies {
